@@ -17,6 +17,35 @@ def gen_wire_ws(rng: random.Random, **kw) -> dict:
     return G.gen_workspace(rng, **o)
 
 
+def permuted_revision(ws: dict, seed: int):
+    """Same definitions (names, versions, kinds, sealing) with the fields of every structure permuted and two field names
+    swapped; returns None if nothing could be changed."""
+    import copy
+    rng = random.Random(seed ^ 0x5EED)
+    ws2 = copy.deepcopy(ws)
+    changed = False
+    for r in ws2["roots"]:
+        for d in r["defs"]:
+            for s in d["secs"]:
+                idx = [i for i, it in enumerate(s["items"]) if it[0] == "f"]
+                if len(idx) >= 2:
+                    perm = idx[:]
+                    rng.shuffle(perm)
+                    if perm != idx:
+                        items = list(s["items"])
+                        for a, b in zip(idx, perm):
+                            items[a] = s["items"][b]
+                        s["items"] = items
+                        changed = True
+                    # swap the names of two fields (the name -> type mapping changes, the set of names does not)
+                    fs = [it for it in s["items"] if it[0] == "f"]
+                    a, b = rng.sample(fs, 2)
+                    if a[1] != b[1]:
+                        a[2], b[2] = b[2], a[2]
+                        changed = True
+    return ws2 if changed else None
+
+
 def in_set(real_bls, node, L: int, limit: int = 20000) -> bool:
     if node.work() <= limit:
         return L in set(real_bls)
@@ -32,10 +61,11 @@ class C06(Check):
             "structures with padding, unions, sealed and delimited composites, nesting <= 4, services) read by the real front end; "
             "for every message / request / response type 12-40 seeded values (boundary and out-of-range numbers, NaN / inf / "
             "subnormal / -0.0, empty and full arrays, multi-byte UTF-8, omitted fields, relaxed forms, with and without the top-"
-            "level delimiter header). Three parties: writer = pydsdl.serialize, reader = pydsdl.deserialize, reference peer = "
+            "level delimiter header); then, in the same process, a second revision of the namespace with permuted / renamed fields under the "
+            "same type names (nothing may be remembered between calls). Three parties: writer = pydsdl.serialize, reader = pydsdl.deserialize, reference peer = "
             "independent Specification codec. distinct = hash of (type-shape signature: kinds of fields incl. nesting, union, "
             "delimited; value features); non-trivial = the type has a sub-byte field or a nested composite or a variable array")
-    TIERS = {"quick": {"runs": 640, "budget_s": 50}, "thorough": {"runs": 40000, "budget_s": 900}}
+    TIERS = {"quick": {"runs": 480, "budget_s": 50}, "thorough": {"runs": 40000, "budget_s": 900}}
     ASSUMPTIONS = ["struct (IEEE-754 rounding of finite floats) is trusted on both sides", "an infinite input for a *saturated* float field is not generated (left open by the property text)",
                    "float inputs for integer fields and ambiguous bare-dict relaxed forms are not generated"]
 
@@ -43,15 +73,32 @@ class C06(Check):
         return {"ws": gen_wire_ws(rng), "value_seed": rng.randrange(1 << 30), "nvalues": rng.choice([12, 20, 40])}
 
     def execute(self, scn: dict) -> Outcome:
-        from ..worlds.wire import Node, NodeError
-        import pydsdl
         out = Outcome()
         W.validate_ws(scn["ws"])
+        self._run_node(scn, scn["ws"], out, "")
+        # history: the same process now meets a *revision* of the namespace in which the fields of some definitions are
+        # permuted / renamed (same names and versions, mostly the same length sets, different layout). Nothing may be
+        # remembered from the first revision (pydsdl keeps no state between calls; type objects are compared by name,
+        # version and length set only, so any cache keyed on them would collide here).
+        ws2 = permuted_revision(scn["ws"], scn["value_seed"])
+        if ws2 is not None:
+            try:
+                W.validate_ws(ws2)
+            except InvalidScenario:
+                ws2 = None
+        if ws2 is not None:
+            out.stats["second_revision_in_same_process"] += 1
+            self._run_node(scn, ws2, out, " (second revision)")
+        return out
+
+    def _run_node(self, scn: dict, ws: dict, out: Outcome, tag: str) -> None:
+        from ..worlds.wire import Node, NodeError
+        import pydsdl
         try:
-            node = Node(scn["ws"])
+            node = Node(ws)
         except NodeError as ex:
-            out.fail("C06.roundtrip", "valid namespace rejected by the front end: %s" % ex, "frontend-rejected")
-            return out
+            out.fail("C06.roundtrip", "valid namespace%s rejected by the front end: %s" % (tag, ex), "frontend-rejected")
+            return
         try:
             res = node.uni.res
             for key, si, real, sec in node.sections():
@@ -64,7 +111,7 @@ class C06(Check):
                 for i in range(scn["nvalues"]):
                     rng = random.Random(scn["value_seed"] * 1000003 + i * 7919 + len(key) + si)
                     v = V.gen_composite(rng, sec, in_range=rng.random() < 0.4, p_omit=0.2)
-                    where = "%s[%d] value #%d %r" % (key, si, i, v)
+                    where = "%s[%d]%s value #%d %r" % (key, si, tag, i, v)
                     ref_bytes, marks = R.encode(res, key, si, v, with_header=False)
                     try:
                         real_bytes = pydsdl.serialize(real, v)
@@ -120,7 +167,6 @@ class C06(Check):
             out.obs.append([len(node.types), out.stats["messages"]])
         finally:
             node.close()
-        return out
 
 
 def type_features(res, sec, depth=0) -> set:
